@@ -378,6 +378,19 @@ func runC13(c C13Case) (res c13Result) {
 				}
 			}
 		case "stop":
+			// a Stop that reports success has committed something: an acknowledgement
+			// without a commit would acknowledge writes that are gone
+			if err == nil {
+				committed := false
+				for _, ev := range srv.LogSince(logBefore) {
+					if ev.Op == "commit" && ev.OK {
+						committed = true
+					}
+				}
+				if !committed {
+					return fail(i, op, "stop-acknowledges-nothing", "Stop returned no error although no transaction was committed by it (the explicit transaction had been rolled back, or there was none)")
+				}
+			}
 			if ref.explicit {
 				if err == nil && ref.clean {
 					// (5) all writes of the transaction are visible to an independent reader
